@@ -92,6 +92,11 @@ def gen_batch(r, bi, services=False, can=False, n_random=(6, 9), out_of_order=Tr
     # a NEGATIVE field id (the front end accepts it): it sorts first; all leaves are whole bytes.  Declared after
     # the random structs so that it is neither a building block nor among the first CAN-bound structs.
     add(p + "NegId", [("a", 0, ("u", 8)), ("flags", -1, ("u", 8)), ("b", 5, ("i", 16))] if out_of_order else [("flags", -1, ("u", 8)), ("a", 0, ("u", 8)), ("b", 5, ("i", 16))])
+    # two enums that share enumerator NAMES with different values (scoped per enum)
+    decls.append({"kind": "enum", "name": p + "Gear", "values": [("Off", 0), ("Error", 3), ("On", 1)]})
+    decls.append({"kind": "enum", "name": p + "Pump", "values": [("Error", 7), ("Off", 2), ("Idle", 0), ("On", 5)]})
+    add(p + "Shared", [("g", 0, ("enum", p + "Gear")), ("q", 1, ("enum", p + "Pump")), ("l", 2, ("arr", ("enum", p + "Pump"), 2)), ("o", 3, ("opt", ("enum", p + "Gear"))),
+                       ("z", 4, ("u", 3))])
     # a binding of one struct RENAMED to the name of another declared struct (impl uart for DupId as Arr2): a message is
     # looked up among the structs by its struct's name, whatever bindings are called
     decls.append({"kind": "impl", "protocol": "uart", "type": p + "DupId", "name": p + "Arr2", "items": [("field", "id", 77)]})
